@@ -83,7 +83,8 @@ pub fn run_scen(sc: &Scen, case: u64) -> J {
     let out_dir = base.join("out");
     if sc.out_dir >= 2 {
         std::fs::create_dir_all(&out_dir).unwrap();
-        std::fs::write(out_dir.join("sentinel"), b"keep me").unwrap();
+        // mode 4: the existing directory is EMPTY (it exists all the same: refused without --force, left as it is)
+        if sc.out_dir != 4 { std::fs::write(out_dir.join("sentinel"), b"keep me").unwrap(); }
     }
     let program = if sc.program_missing { base.join("no-such-program") } else { bin_dir().join("objprog") };
     let mut cmd = Command::new(cambrian_bin());
@@ -164,7 +165,8 @@ pub fn run_scen(sc: &Scen, case: u64) -> J {
                 files.insert(n, json!({"len": b.len(), "hex": hex(&b[..b.len().min(200_000)])}));
             }
         }
-        if sc.out_dir >= 2 { sentinel_intact = json!(std::fs::read(out_dir.join("sentinel")).map(|b| b == b"keep me").unwrap_or(false)); }
+        if sc.out_dir == 4 { sentinel_intact = json!(out_dir.is_dir() && files.is_empty()); }
+        else if sc.out_dir >= 2 { sentinel_intact = json!(std::fs::read(out_dir.join("sentinel")).map(|b| b == b"keep me").unwrap_or(false)); }
     }
     let stderr_s = String::from_utf8_lossy(&stderr).to_string();
     // derived observations: parsed report files, the spec and the printed best as the model sees them
@@ -310,10 +312,12 @@ pub fn gen_scen(rng: &mut Rng, _thorough: bool) -> Scen {
             let nc = 2 + rng.below(2) as usize;
             let mut sc = base_scen("failure");
             sc.opts = vec![s("-n"), s("20"), s("--num-concurrent"), nc.to_string()];
-            let bad = match rng.below(7) { 0 => json!({"wait": true, "exit": 3, "stdout": "{\"objFuncVal\": 1}"}), 1 => json!({"wait": true, "stdout": "this is not json"}),
+            let bad = match rng.below(8) { 0 => json!({"wait": true, "exit": 3, "stdout": "{\"objFuncVal\": 1}"}), 1 => json!({"wait": true, "stdout": "this is not json"}),
                                            // a well-formed result followed by more output (a second document, a log line): not a result
                                            5 => json!({"wait": true, "stdout": "{\"objFuncVal\": 1}\nTraceback (most recent call last):\n"}),
                                            6 => json!({"wait": true, "stdout": "{\"objFuncVal\": 1} {\"objFuncVal\": 2}"}),
+                                           // a child that printed a valid result and then died from a signal did not succeed
+                                           7 => json!({"wait": true, "stdout": "{\"objFuncVal\": 1}", "self_signal": *rng.pick(&[11, 6, 9])}),
                                            2 => json!({"wait": true, "stdout": "{\"objFuncVal\": 1, \"extra\": 2}"}), 3 => json!({"wait": true, "stdout": ""}), _ => json!({"wait": true, "stdout": "{\"objFuncVal\": 1e999}"}) };
             let failing = rng.below(nc as u64);
             let mut seeds = serde_json::Map::new();
@@ -409,7 +413,7 @@ pub fn gen_scen(rng: &mut Rng, _thorough: bool) -> Scen {
             let force = rng.chance(1, 2);
             let mut sc = base_scen("outdir-exists");
             sc.opts = vec![s("-n"), s("2")];
-            sc.out_dir = if force { 3 } else { 2 };
+            sc.out_dir = if force { 3 } else if rng.chance(1, 2) { 4 } else { 2 };
             sc.expect = if force { json!({"exit": "ok", "starts": 2, "sentinel": false, "survivors": 0}) } else { json!({"exit": "fail", "starts": 0, "sentinel": true, "stdoutLines": 0, "survivors": 0}) };
             sc
         }
@@ -437,6 +441,8 @@ pub fn gen_scen(rng: &mut Rng, _thorough: bool) -> Scen {
             let mut beh = out.clone();
             beh["stderr_hex"] = err;
             sc.plan = json!({"default": beh});
+            // with an output directory the diagnostic files of a failing child are compared as well
+            sc.out_dir = *rng.pick(&[0, 1]);
             sc.expect = json!({"noCrash": true, "survivors": 0, "verbose": verbose});
             sc
         }
@@ -460,7 +466,8 @@ pub fn gen_case(rng: &mut Rng, thorough: bool, case: u64) -> J {
         if twin.opts.contains(&s("--verbose")) { twin.opts.retain(|o| o != "--verbose"); } else { twin.opts.push(s("--verbose")); }
         let t = run_scen(&twin, case + 1_000_000);
         line["twin"] = json!({"opts": twin.opts, "obs": {"exitCode": t["obs"]["exitCode"], "signal": t["obs"]["signal"], "hang": t["obs"]["hang"],
-                                "stdoutLines": t["obs"]["stdoutLines"], "stderrPanic": t["obs"]["stderrPanic"], "stderrTail": t["obs"]["stderrTail"], "survivors": t["obs"]["survivors"]}});
+                                "stdoutLines": t["obs"]["stdoutLines"], "stderrPanic": t["obs"]["stderrPanic"], "stderrTail": t["obs"]["stderrTail"], "survivors": t["obs"]["survivors"],
+                                "files": t["obs"]["files"]}});
     }
     line
 }
